@@ -396,3 +396,57 @@ Example C02_source_div_zero_is_rejected :
   optimize_bridge_ok (EBinary (A ki) BDiv (lit 1) (EBinary (A ki) BSub (lit 1) (lit 1))) = true /\
   exists l, source_optimize w_fe w_env [] (EBinary (A ki) BDiv (lit 1) (EBinary (A ki) BSub (lit 1) (lit 1))) = Some (OFail l).
 Proof. exact src_div_zero_is_rejected. Qed.
+
+(* ------------------------------------------------------------------------------------------------------------------
+   FINDING C02-iface-arith-typed-int (tenth recorded finding; Opt/IfaceArithFinding.v, everything by vm_compute).
+   `checker.combined` ranks interface{} below every numeric kind, so `Any + 1` (Any : interface{}) is statically int;
+   in_array / in_range then rewrite a membership test whose left value is a float64 at run time.
+   Environment type: struct{ Any interface{} } (`ia_cc`, types table built by create_types_table); value: Any = 2.5. *)
+Require X.Ty.Checker.
+Require Import X.Opt.IfaceArithFinding.
+
+(* the model checker types `Any + 1` int, and annotates the two raw trees exactly as the witnesses are annotated *)
+Theorem C02_iface_arith_typed_int :
+  X.Ty.Checker.check ia_cc raw_any_plus_1 = (TNum KInt, any_plus_1, None) /\
+  X.Ty.Checker.check ia_cc raw_iface_array = (TBool, w_iface_array, None) /\
+  X.Ty.Checker.check ia_cc raw_iface_range = (TBool, w_iface_range, None).
+Proof. exact (conj iface_arith_typed_int (conj iface_array_checked iface_range_checked)). Qed.
+Print Assumptions C02_iface_arith_typed_int.
+
+(* the model optimizer rewrites both: `(Any + 1) in MAP{2, 3}` and `(Any + 1) >= 1 and (Any + 1) <= 5` *)
+Theorem C02_iface_arith_rewritten :
+  (optimize w_fe ia_env [] w_iface_array = OOk o_iface_array /\ o_iface_array <> w_iface_array) /\
+  (optimize w_fe ia_env [] w_iface_range = OOk o_iface_range /\ o_iface_range <> w_iface_range).
+Proof. exact (conj iface_array_rewritten iface_range_rewritten). Qed.
+Print Assumptions C02_iface_arith_rewritten.
+
+(* on Any = 2.5: false unoptimized vs a run-time failure optimized; false unoptimized vs true optimized *)
+Theorem C02_iface_arith_observed :
+  (val_of (ia_run w_iface_array) = Some (VBool false) /\ is_stop (ia_opt_run w_iface_array) = true) /\
+  (val_of (ia_run w_iface_range) = Some (VBool false) /\ option_map val_of (ia_opt_run w_iface_range) = Some (Some (VBool true))).
+Proof. exact (conj iface_array_false_vs_failure iface_range_false_vs_true). Qed.
+Print Assumptions C02_iface_arith_observed.
+
+Theorem C02_iface_arith_refuted : K_iface_arith w_iface_array = true /\ ~ C02_transparent_full_statement.
+Proof. exact IfaceArithFinding.C02_iface_arith_refuted. Qed.
+Print Assumptions C02_iface_arith_refuted.
+
+Theorem C02_iface_arith_range_refuted : K_iface_arith w_iface_range = true /\ ~ C02_transparent_full_statement.
+Proof. exact IfaceArithFinding.C02_iface_arith_range_refuted. Qed.
+Print Assumptions C02_iface_arith_range_refuted.
+
+(* the witnesses are OUTSIDE the hypotheses of C02_transparent_partial: the annotation-soundness side conditions
+   `sc_in_array` (Site_ia: a left operand typed int evaluates to an int) resp. `sc_in_range` (Site_ir: the left operand
+   evaluates to an integer of kind int / int64 / uint* ) fail at the root, while the syntactic carve-out `sc_good` holds *)
+Theorem C02_iface_arith_outside_partial :
+  ~ side_conditions w_fe (w_cfg 1000) ia_env [] w_iface_array /\
+  ~ side_conditions w_fe (w_cfg 1000) ia_env [] w_iface_range.
+Proof. exact IfaceArithFinding.C02_iface_arith_outside_partial. Qed.
+Print Assumptions C02_iface_arith_outside_partial.
+
+Theorem C02_iface_arith_excluded_by_site_conditions :
+  ~ sites (Site_ia w_fe (w_cfg 1000) ia_env) w_iface_array /\
+  (exists e3, before_in_range w_fe ia_env [] w_iface_range = OOk e3 /\ ~ sites (Site_ir w_fe (w_cfg 1000) ia_env) e3) /\
+  good [] (pass_in_array w_iface_array) = true /\ good [] (pass_in_array w_iface_range) = true.
+Proof. exact (conj iface_array_fails_Site_ia (conj iface_range_fails_Site_ir iface_witnesses_good)). Qed.
+Print Assumptions C02_iface_arith_excluded_by_site_conditions.
